@@ -1082,6 +1082,49 @@ inline SpecFamily familyI(const std::string &name, bool thorough)
     return listFamily(name, out);
 }
 
+// ------------------------------------------------------------------ family ip: imported components at EVERY position of the forest
+// Every labelled rooted forest on <= kmax components x every non-empty import mask (so an imported component is top-level
+// first/middle/last, a child or grandchild of a local component, the parent or the child of another imported component, with
+// import-free siblings before and/or after at every level) x {no imported units, one imported units} x {own ImportSource per
+// entity, one shared ImportSource} x {no ids, ids}.  No connections: the family is about where the <import> section comes from.
+inline SpecFamily familyIP(const std::string &name, int kmax)
+{
+    std::vector<Block> blocks;
+    static const char *cn[] = {"ca", "cb", "cc", "cd", "ce"};
+    for (int k = 1; k <= kmax; ++k) for (auto &parent : forests(k)) for (unsigned mask = 1; mask < (1u << k); ++mask) for (int nu = 0; nu < 2; ++nu) {
+        int nimp = nu;
+        for (int i = 0; i < k; ++i) if (mask & (1u << i)) ++nimp;
+        uint64_t nshare = nimp > 1 ? 2 : 1;
+        Block b;
+        b.count = nshare * 2;
+        b.at = [=](uint64_t idx) {
+            Radix r(idx);
+            int share = int(r.take(nshare)), iid = int(r.take(2));
+            Spec s;
+            int ent = 0;
+            auto mkImport = [&](const std::string &ref) {
+                Import im; im.on = true; im.ref = ref;
+                im.href = share ? "lib.cellml" : "lib" + std::to_string(ent) + ".cellml";
+                im.src = share ? 0 : -1;
+                if (iid) im.iid = share ? "i_imp" : "i_imp" + std::to_string(ent);
+                ++ent;
+                return im;
+            };
+            if (nu) { UnitsDef u; u.name = "ui"; u.imp = mkImport("src_u"); if (iid) u.id = "i_ui"; s.units.push_back(u); }
+            for (int i = 0; i < k; ++i) {
+                Comp c; c.name = cn[i]; c.parent = parent[size_t(i)];
+                if (mask & (1u << i)) { c.imp = mkImport("src_" + c.name); if (iid) c.id = "i_" + c.name; }
+                else { Var v; v.name = "x"; if (nu && i == 0) v.units = "ui"; c.vars.push_back(v); }
+                if (iid && (c.parent >= 0)) c.eid = "e_" + c.name;
+                s.comps.push_back(c);
+            }
+            return s;
+        };
+        blocks.push_back(b);
+    }
+    return blockFamily(name, blocks);
+}
+
 // ------------------------------------------------------------------ family m: math
 inline SpecFamily familyM(const std::string &name)
 {
